@@ -1,6 +1,6 @@
 PROPS["C10"] = prop(
     "exploration",
-    "rapid-generated multi-session attach/detach/disconnect/mute/invite/evict histories on 'me', P2P and group topics under a virtual clock; oracles: entitlement of every {pres}/{info-on-me} frame against the stored subscription, online-counter invariant after every step, convergence of last-told online state and of the contact table once idle topics are unloaded; session 3: channel-enabled groups, online flags of group subscriber lists, account deletion with the P2P topic in memory, one-sided mute, attach at the moment of the idle timer, store latency",
+    "rapid-generated multi-session attach/detach/disconnect/mute/invite/evict histories on 'me', P2P and group topics under a virtual clock; oracles: entitlement of every {pres}/{info-on-me} frame against the stored subscription, online-counter invariant after every step, convergence of last-told online state and of the contact table once idle topics are unloaded; session 3: channel-enabled groups, online flags of group subscriber lists, account deletion with the P2P topic in memory, one-sided mute, attach at the moment of the idle timer, store latency; round 7: the only connection on 'me' stops reading and is dropped by the topic - contacts must still be told 'off'",
     "program = 3-6 sessions of 4 users (some saying {hi bkg}), group + up to 4 P2P topics, 4-22 ops (sub/leave me and work topics, disc/reconn, own-mode and grant changes incl. mute/ban, evictions, publishes, notes, desc updates, ticks of 0.6-12 s, restart); "
     "non-trivial = >=2 (observer session, subject) pairs judged at the end and both an 'on' and an 'off' told during the history; distinct = FNV-64 of the program",
     "Every presence frame of every step is checked; counters after every step; convergence once per history after 14 virtual seconds of silence. Sampled.",
